@@ -2,6 +2,7 @@ package ovsdb
 
 import (
 	"encoding/json"
+	"fmt"
 )
 
 const (
@@ -105,6 +106,9 @@ type OperationResult struct {
 func ovsSliceToGoNotation(val interface{}) (interface{}, error) {
 	switch sl := val.(type) {
 	case []interface{}:
+		if len(sl) == 0 {
+			return nil, fmt.Errorf("an empty array is not an OVSDB value")
+		}
 		bsliced, err := json.Marshal(sl)
 		if err != nil {
 			return nil, err
